@@ -42,8 +42,18 @@ def sanitiser_facts(tonic):
             out['key_ok'] = is_param and len(drivers) == 1 and from_table(sh.origin(drivers[0][1]['args'][0]))
             out['all_visited'] = len(drivers) == 1 and drivers[0][1].get('name') == 'for_each' and not find_terms(sh.origin(drivers[0][1]['args'][0]), lambda x: is_call(x) and x[3] in ('take', 'skip', 'filter', 'step_by', 'take_while', 'skip_while'))
     rt = mirlib.returned_terms(sh)
-    out['returns_own'] = len(rt) == 1 and field_names(rt[0][1])[-1:] == ['headers'] and arg_root(strip_refs(rt[0][1])) == 1
+    rt1 = through_getters(tonic, rt[0][1]) if len(rt) == 1 else None
+    out['returns_own'] = len(rt) == 1 and field_names(rt1)[-1:] == ['headers'] and arg_root(strip_refs(rt1)) == 1
     out['returns'] = show(rt[0][1]) if rt else None
+    # `self.strip(); self.into_headers()`: the unsanitised getter may be the tail of the sanitiser itself when the removal loop
+    # has run to completion before it (the loop's iterator step dominates the call, the call is outside the loop)
+    out['tail_getter'] = []
+    if out['returns_own'] and rt1 != rt[0][1] and len(removes) == 1 and removes[0][0] is sh:
+        rbb = removes[0][1]
+        nxt = [bb for bb, t in sh.calls(name='next') if rbb in sh.reachable(bb) and bb in sh.reachable(rbb)]
+        for cb, ct in sh.calls(pat='MetadataMap::into_headers'):
+            if len(nxt) == 1 and sh.dominates(nxt[0], cb) and rbb not in sh.reachable(cb) and arg_root(strip_refs(sh.origin(ct['args'][0]))) == 1:
+                out['tail_getter'].append(cb)
     return out
 
 
@@ -96,6 +106,11 @@ def run(R):
         callers = {}
         for bd, bb, t in call_sites_in_crate(tonic, pat='MetadataMap::into_headers'):
             callers.setdefault(short(bd.path), []).append((bd, bb))
+        f2 = sanitiser_facts(tonic)
+        own = short(f2['body'].path)
+        if own in callers and sorted(bb for bd, bb in callers[own]) == sorted(f2['tail_getter']):
+            R.ok('C08.R2', 'into_headers-as-sanitiser-tail', site(f2['body'], f2['tail_getter'][0]), 'the sanitiser returns self.into_headers() after its removal loop has finished')
+            callers.pop(own)
         R.eq(sorted(callers), ['tonic::request::Request::into_http'], 'C08.R2', 'into_headers-callers', '', 'bodies calling MetadataMap::into_headers inside tonic')
         rh = tonic.body('request::Request::<T>::into_http')
         R.saw(rh)
@@ -166,9 +181,12 @@ def run(R):
                 R.check(mentions_call(key, name='as_str'), 'C08.R3', 'iter:%s:tests-the-name' % itname, site(nb), 'tested string = %s' % show(key)[:80])
         R.floor('C08.R3', 'iterators', n_it, 5)
         n_acc = 0
-        for ty in ('&str', 'std::string::String', '&std::string::String'):
+        ACC_TYS = ('&str', 'std::string::String', '&std::string::String')
+        acc_body = lambda ty_, m_: tonic.body(re.compile(r'^<%s as metadata::map::as_metadata_key::Sealed<VE>>::%s$' % (re.escape(ty_), m_)))
+        direct = {}
+        for ty in ACC_TYS:
             for m in KEYED:
-                bd = tonic.body(re.compile(r'^<%s as metadata::map::as_metadata_key::Sealed<VE>>::%s$' % (re.escape(ty), m)))
+                bd = acc_body(ty, m)
                 R.saw(bd)
                 n_acc += 1
                 vk = bd.calls(name='is_valid_key')
@@ -178,7 +196,37 @@ def run(R):
                     sw = mirlib.follow_to_switch(bd, vk[0][1]['t'])
                     g = [(s, vals) for s, vals, tm in bd.edge_guards(acc[0][0]) if s == sw]
                     okv = bool(g) and (g[0][1] == ['else'] or 0 not in g[0][1]) and 'arg1' in show(bd.origin(vk[0][1]['args'][0]))
-                R.check(okv, 'C08.R3', 'accessor:%s:%s' % (ty.split('::')[-1], m), site(bd), 'map access guarded by VE::is_valid_key(self): %r' % okv)
+                direct[(ty, m)] = bool(okv)
+        # an impl may instead forward to a sibling impl of the same method for the same encoding (`Sealed::<VE>::get(self.as_str(), map)`)
+        # whose own guard is established: the forwarded key is the own key, nothing else touches the map, the sibling's answer is returned
+        def forwards(ty_, m_):
+            bd = acc_body(ty_, m_)
+            if bd.calls(pat='HeaderMap'):
+                return None
+            fw = [(bb, t) for bb, t in bd.calls(name=m_) if re.match(r'^<(.*) as metadata::map::as_metadata_key::Sealed<VE>>::%s$' % m_, t.get('resolved') or '')]
+            if len(fw) != 1:
+                return None
+            bb, t = fw[0]
+            tgt = re.match(r'^<(.*) as metadata::map::as_metadata_key::Sealed<VE>>::', t['resolved']).group(1)
+            rt = mirlib.returned_terms(bd)
+            same = len(rt) == 1 and is_call(strip_refs(rt[0][1]), name=m_) and t['resolved'] in show(rt[0][1])
+            if tgt in ACC_TYS and tgt != ty_ and same and arg_root_through(bd.origin(t['args'][0])) == 1 and arg_root(strip_refs(bd.origin(t['args'][1]))) == 2:
+                return tgt
+            return None
+        def arg_root_through(tm_):
+            x = strip_refs(tm_)
+            for _ in range(4):
+                if is_call(x) and x[3] in ('as_str', 'as_ref', 'deref', 'borrow') and x[2]:
+                    x = strip_refs(x[2][0])
+            return arg_root(x)
+        for ty in ACC_TYS:
+            for m in KEYED:
+                okv, how = direct[(ty, m)], 'map access guarded by VE::is_valid_key(self)'
+                if not okv:
+                    tgt = forwards(ty, m)
+                    if tgt is not None and direct.get((tgt, m)):
+                        okv, how = True, 'forwards its key to the guarded <%s as Sealed<VE>>::%s' % (tgt, m)
+                R.check(okv, 'C08.R3', 'accessor:%s:%s' % (ty.split('::')[-1], m), site(acc_body(ty, m)), '%s: %r' % (how, okv))
         R.floor('C08.R3', 'string-keyed accessors', n_acc, 15)
         for nm in ('from_bytes', 'from_static'):
             bd = tonic.body('metadata::key::MetadataKey::<VE>::' + nm)
